@@ -5,6 +5,7 @@ import (
 	"verif/internal/core"
 	"verif/prop/c02"
 	"verif/prop/c03"
+	"verif/prop/c04"
 	"verif/prop/c05"
 	"verif/prop/c06"
 	"verif/prop/c07"
@@ -30,6 +31,7 @@ type Prop struct {
 var All = map[string]Prop{
 	"C02": {Level: "model_checking", Check: c02.Check, Replay: c02.Replay},
 	"C03": {Level: "model_checking", Check: c03.Check, Replay: c03.Replay},
+	"C04": {Level: "model_checking", Check: c04.Check, Replay: c04.Replay},
 	"C05": {Level: "model_checking", Check: c05.Check, Replay: c05.Replay},
 	"C06": {Level: "model_checking", Check: c06.Check, Replay: c06.Replay},
 	"C07": {Level: "model_checking", Check: c07.Check, Replay: c07.Replay},
